@@ -381,7 +381,7 @@ def _cases(ctx):
         cases.append({"key": int(core.stable_hash("C44io", ctx.seed, i)), "profile": ["constrained", "contact", "smooth"][i % 3],
                       "parts": ["state", "make", "roundtrip"], "nrandom": ctx.pick(12, 40), "mocap": 1 if i % 2 == 0 else None,
                       "batch": 0, "fns": []})
-    n_x = ctx.pick(8, 90)
+    n_x = ctx.pick(8, 60)
     for i in range(n_x):
         B = [1, 2, 7][i % 3]
         if ctx.quick:   # un-jitted step costs ~100 s of op-by-op dispatch on a loaded machine: thorough tier only
